@@ -16,8 +16,22 @@ def make(i, seed):
     xstar = rs.uniform(-4, 4, D)
     plb, pub = np.full(D, -5.0), np.full(D, 5.0)
     lb, ub = np.full(D, -20.0), np.full(D, 20.0)
+    if stratum(i) == "wide":        # a generous plausible box: the family fixes the minimiser, not the width of the box
+        plb, pub, lb, ub = np.full(D, -50.0), np.full(D, 50.0), np.full(D, -200.0), np.full(D, 200.0)
     x0 = rs.uniform(plb, pub)
     return D, A, xstar, x0, lb, ub, plb, pub
+
+
+def stratum(i):
+    """standard: f* = 0, plausible box [-5,5]^D;  offset: the same with a minimum VALUE far from zero (either sign);
+    wide: plausible box [-50,50]^D."""
+    return ("standard", "offset", "standard", "wide")[(i // 5) % 4]
+
+
+def offset_of(i, seed):
+    if stratum(i) != "offset":
+        return 0.0
+    return (2.0e3, -1.0e4, 2.0e4)[(i + seed) % 3]
 
 
 def run_one(args):
@@ -29,18 +43,19 @@ def run_one(args):
     logging.disable(logging.CRITICAL)
     D, A, xstar, x0, lb, ub, plb, pub = make(i, seed)
     vals = []
+    c = offset_of(i, seed)
 
     def f(x):
         d = np.asarray(x).reshape(-1) - xstar
         v = float(0.5 * d @ A @ d)
         vals.append(v)
-        return v
+        return v + c
     try:
         b = BADS(f, x0, lb, ub, plb, pub, options=dict(display="off", random_seed=seed * 1000 + i))
         u0val = None
         r = b.optimize()
         best = np.minimum.accumulate(np.array(vals))
         to_1e2 = int(np.argmax(best <= 1e-2)) + 1 if np.any(best <= 1e-2) else None
-        return dict(i=i, D=D, fval=float(r.fval), start=vals[0], n=len(vals), to_1e2=to_1e2, exc=None)
+        return dict(i=i, D=D, stratum=stratum(i), fval=float(r.fval) - c, start=vals[0], n=len(vals), to_1e2=to_1e2, exc=None)
     except Exception as ex:
-        return dict(i=i, D=D, fval=None, start=vals[0] if vals else None, n=len(vals), to_1e2=None, exc=repr(ex)[:200])
+        return dict(i=i, D=D, stratum=stratum(i), fval=None, start=vals[0] if vals else None, n=len(vals), to_1e2=None, exc=repr(ex)[:200])
